@@ -48,6 +48,18 @@ CHECKS = {
    technique="the C04 input space walked exhaustively by two builds of the same engine (feature off / on); per-block outcome digests compared, differing blocks re-walked case by case",
    text="Every input of the C04 UPER space (all bit strings <= 11 / 16 bits and all single faults of valid seeds, per zoo type) is decoded by a binary built without and one built with descriptive-deserialize-errors; (Ok value | ErrorKind variant, reader position) must be identical for every input, and a worker death must occur in both or neither. The feature build is checked to attach non-empty scope descriptions to errors (non-vacuity).",
    note="Two target directories (/verif/.target and /verif/.target_desc), both rebuilt from /repo's working tree by ./check. Only the feature set differs between the builds."),
+ "C13": dict(engine="e_front", category="model_checking", design="5/C13",
+   technique="deviation-bounded exhaustive search over layouts (default: one space at every lexical boundary; <= d boundaries deviate to another separator of the alphabet), each rendered text run through the real Tokenizer and front end and compared with a reference lexer",
+   text="10 seed modules covering every construct of the supported subset (12..110 lexical items). Separator alphabet: tab, newline, CR/LF, two spaces, line comment, block comment, nested / tightly nested / empty block comment, and the empty separator where both neighbours stay distinct items (thorough adds 8 more: multi-line, starred, non-ASCII, dash-containing, depth-3 comments, a line comment containing '/*', a line comment closed by '--'). Every layout with d <= 1 deviations on all seeds and d <= 2 on the seeds with <= 45 items (quick: 244 362 layouts) / d <= 2 on all seeds and d <= 3 on the smallest (thorough: ~4.1 million): the (kind, text) sequence of tokens equals the reference lexer's, every token's location equals the (line, column in characters) where the printer put its first character, and the parsed+resolved model equals the default layout's. A failing layout is classified by the deviations that already fail alone.",
+   note="Trusted: the reference lexer e_front::lex (100 lines). Known finding KF-C13-1 (a line comment is not closed by a second '--')."),
+ "C14": dict(engine="e_front", category="fault_enumeration", design="5/C14",
+   technique="deviation-bounded exhaustive fault enumeration on valid seed modules (token faults, character faults) plus exhaustive token soups, each run through every front-end stage under catch_unwind inside worker processes (abort / hang attribution)",
+   text="Every single fault {delete, duplicate, swap with next, truncate after, replace by / insert each of 66 vocabulary words} at every lexical item of 13 seeds (3 of them multi-line with block, nested and line comments, so faults also land inside comments and at line starts); thorough: every PAIR of faults on the seeds with <= 32 items. Every single-character deletion and insertion of each of {}()[],.:=\"'-/*ü at every character position of the short seeds. Every token soup of <= 3 (4) words of a 34-word vocabulary in three syntactic contexts. Stages: tokenize, parse, resolve, to_rust, Rust generator, to_protobuf, .proto generator. Oracle: each stage returns; the tokenizer's documented 'unclosed comment blocks' panic is accepted only if a reference scan confirms that a block comment really is unterminated.",
+   note="Panic classes are keyed by (stage, innermost asn1rs_model function from the backtrace, normalised message)."),
+ "C15": dict(engine="e_front", category="exploration", design="5/C15",
+   technique="exhaustive enumeration of (min, max) over a boundary set B x B (+ MIN/MAX, extensible) through the real front end and generator, compared with an independent narrowest-type function and the generated accessor bodies",
+   text="B = {0, +-1, +-2, +-100, +-1000} and +-2^k + d, d in -2..2 (94 values quick, 620 thorough = every k <= 63): every (min <= max) in B x B, (MIN..b), (a..MAX), (MIN..MAX), the unconstrained INTEGER, each plain and extensible, as a top-level type and as a SEQUENCE field: 9 688 (quick) / 775 006 (thorough) definitions. The RustType of the model must be the narrowest standard integer type of the right signedness (64-bit if extensible) and value_min()/value_max() (f_min()/f_max()) must return the declared literal bounds.",
+   note="Known findings KF-C15-MIN / KF-C15-UNCONSTRAINED are listed class by class (no wildcard), so e.g. (MIN..negative, ...) - which is right today - stays checked."),
 }
 
 NOT_YET = {
